@@ -13,8 +13,9 @@ CONSTANTS
   GenNoFaults = FALSE
   GenHold = 0
   MaxPhantom = 1000000
+  AddrKinds = {"none", "own", "real"}
 SPECIFICATION TSpec
 CONSTRAINT Mark
-INVARIANTS TypeOK SlotRange CapacityHonoured ReleasedAtMostOnce ReleasedAtEnd NoEarlyRelease RetNeverBlocks CounterMatches ReportedOK RelayPolicy FullCapacityAgain
+INVARIANTS TypeOK SlotRange CapacityHonoured ReleasedAtMostOnce ReleasedAtEnd NoEarlyRelease RetNeverBlocks CounterMatches ReportedOK RelayPolicy FullCapacityAgain ToldAddrRight
 POSTCONDITION TraceAccepted
 CHECK_DEADLOCK FALSE
